@@ -45,6 +45,11 @@ def gen_case(ctx, i):
     cms = int(r.choice([1, 2, 4, 8]))
     paf = int(r.choice([1, 2, 4, 8]))
     n_nodes = int(r.integers(2, 7))
+    if i % 28 == 10:  # dense frame: a 4x4 grid of small animals (5-6 nodes, stride 1): 256 candidate pairs per edge type, more than 1000 candidates per frame
+        n_nodes = int(r.choice([5, 6]))
+        return {"i": i, "crowd": [4, 4], "dense": True, "H": 234, "W": int(r.choice([210, 222])), "max_hw": [None, None], "scale": 1.0, "cms_stride": 1,
+                "paf_stride": int(r.choice([1, 2])), "n_nodes": n_nodes, "edges": rand_tree(r, n_nodes), "n_animals": 16, "missing_p": 0.0,
+                "refinement": [None, "integral"][int(r.integers(0, 2))], "batch": int(r.integers(1, 3)), "max_stride": 16, "n_frames": 2, "seed": int(r.integers(0, 2 ** 31))}
     if i % 7 == 3:  # crowded frame: a 3x3 / 3x2 grid of compact animals, 17-36 peaks per frame (candidate lists of >= 17 elements)
         n_nodes = int(r.choice([3, 4]))
         return {"i": i, "crowd": [3, int(r.choice([2, 3]))], "H": 234, "W": int(r.choice([210, 222])), "max_hw": [None, None], "scale": 1.0, "cms_stride": int(r.choice([1, 2])),
@@ -73,6 +78,8 @@ def make_scene(case, name):
     eff = e2e.eff_scale_for(H, W, tuple(case["max_hw"]))
     tot = case["scale"] * eff
     spacing = max(9.0, 2.6 * case["cms_stride"] / tot, 1.2 * case["paf_stride"] / tot)  # original px between nodes of an animal
+    if case.get("dense"):
+        spacing = 5.0  # stride-1 confidence maps with sigma 0.75 px resolve nodes 5 px apart
     body = max(16.0, spacing * (0.8 + 0.35 * n))
     poses = {}
     grid = []
@@ -214,6 +221,8 @@ def check(ctx, case):
                     nt = True
                 if sum(int((~np.isnan(p).any(-1)).sum()) for p in poses) >= 17:
                     ctx.count("frames_with_17_or_more_peaks")
+                if len(poses) ** 2 * len(edges) > 512:
+                    ctx.count("frames_with_more_than_512_candidates")
                 if len(P) != len(exp):
                     key_ = KEY_LABELS if (provider == "LabelsReader" and case["scale"] != 1.0) else "instance-count"
                     ctx.violation(key_, f"{provider}: frame {key}: {len(P)} predicted instances for {len(exp)} expected groups (animals {len(poses)})", small)
@@ -259,6 +268,7 @@ def finalize(ctx):
     ctx.require("instances_checked", 20)
     ctx.require("frames_with_17_or_more_peaks", 2)
     ctx.require("session_runs", 2)
+    ctx.require("frames_with_more_than_512_candidates", 1)
 
 
 LEVEL_TEXT = ("Real BottomUpPredictor objects run on coordinate-coded videos with an oracle network that renders ideal multi-animal confidence maps and PAFs for the image it actually "
